@@ -1825,3 +1825,300 @@ Proof.
     { apply existsb_exists. exists x. split; [exact Hx | apply mem_key_In; exact Hin]. }
     congruence.
 Qed.
+
+Lemma next_orph_nonKG w o orph : (forall k, In k orph -> nonKG k = true) ->
+  forall k, In k (next_orph w o orph) -> nonKG k = true.
+Proof.
+  intros H k Hk. destruct o; unfold next_orph in Hk; try (apply H; exact Hk).
+  - apply rm_key_In in Hk. apply H. apply Hk.
+  - apply in_app_or in Hk. destruct Hk as [Hk|Hk]; [apply filter_In in Hk; apply Hk | apply H; exact Hk].
+  - apply drop_In in Hk. apply H. apply Hk.
+Qed.
+
+(* ---- histories ---- *)
+Fixpoint orph_run (ops : list op) (w : ws) (orph : list key) : list key :=
+  match ops with
+  | [] => orph
+  | o :: r => orph_run r (fst (step w o)) (next_orph w o orph)
+  end.
+
+Lemma run_cons o r w : run (o :: r) w = run r (fst (step w o)).
+Proof. reflexivity. Qed.
+
+Lemma rep_run_from ops : forall w orph, Rep (wmem w) (wfile w) (wpend w ++ orph) -> fresh_run ops w = true ->
+  Rep (wmem (run ops w)) (wfile (run ops w)) (wpend (run ops w) ++ orph_run ops w orph).
+Proof.
+  induction ops as [|o r IH]; intros w orph R Hf; [exact R|].
+  simpl in Hf. apply andb_true_iff in Hf. destruct Hf as [H1 H2]. rewrite run_cons. simpl orph_run.
+  apply IH; [apply rep_step_gen; assumption | exact H2].
+Qed.
+
+Lemma orph_run_nonKG ops : forall w orph, (forall k, In k orph -> nonKG k = true) ->
+  forall k, In k (orph_run ops w orph) -> nonKG k = true.
+Proof.
+  induction ops as [|o r IH]; intros w orph H; [exact H|]. simpl. apply IH. apply next_orph_nonKG. exact H.
+Qed.
+
+Lemma next_orph_clean w o : clean_op w o = true -> next_orph w o [] = [].
+Proof.
+  destruct o; simpl; intros H; try reflexivity. rewrite app_nil_r.
+  induction (wpend w) as [|x l IH]; simpl in *; [reflexivity|].
+  apply andb_true_iff in H. destruct H as [H1 H2]. unfold nonKG at 1. rewrite H1. simpl. apply IH. exact H2.
+Qed.
+
+Lemma orph_run_clean ops : forall w, clean_run ops w = true -> orph_run ops w [] = [].
+Proof.
+  induction ops as [|o r IH]; intros w H; [reflexivity|]. simpl in *.
+  apply andb_true_iff in H. destruct H as [H1 H2]. rewrite next_orph_clean by exact H1. apply IH. exact H2.
+Qed.
+
+Lemma rep_init_app : Rep (wmem init) (wfile init) (wpend init ++ []).
+Proof. exact rep_init. Qed.
+
+(* valid up to the orphans: pending dead identifiers plus object/data orphans forgotten by a re-open *)
+Theorem rep_run_orphans : forall ops, fresh_run ops init = true ->
+  let w := run ops init in
+  exists orph, (forall k, In k orph -> fst k <> KG) /\ Rep (wmem w) (wfile w) (wpend w ++ orph).
+Proof.
+  intros ops Hf w. exists (orph_run ops init []). split.
+  - intros k Hk E. pose proof (orph_run_nonKG ops init [] (fun k H => match H with end) k Hk) as Hn.
+    unfold nonKG in Hn. rewrite E in Hn. discriminate.
+  - apply rep_run_from; [exact rep_init_app | exact Hf].
+Qed.
+
+Theorem rep_step : forall w o, Rep (wmem w) (wfile w) (wpend w) -> fresh_op w o = true -> clean_op w o = true ->
+  Rep (wmem (fst (step w o))) (wfile (fst (step w o))) (wpend (fst (step w o))).
+Proof.
+  intros w o R Hf Hc. rewrite <- (app_nil_r (wpend w)) in R.
+  pose proof (rep_step_gen w o [] R Hf) as R'. rewrite next_orph_clean in R' by exact Hc.
+  rewrite app_nil_r in R'. exact R'.
+Qed.
+
+Theorem rep_run : forall ops, fresh_run ops init = true -> clean_run ops init = true ->
+  let w := run ops init in Rep (wmem w) (wfile w) (wpend w).
+Proof.
+  intros ops Hf Hc w. pose proof (rep_run_from ops init [] rep_init_app Hf) as R.
+  rewrite orph_run_clean in R by exact Hc. rewrite app_nil_r in R. exact R.
+Qed.
+
+(* C01 *)
+Theorem reopen_equiv : forall ops, fresh_run ops init = true ->
+  let w := run ops init in
+  snd (step w Reopen) = Done /\ tree_equiv (wmem (fst (step w Reopen))) (wmem w).
+Proof.
+  intros ops Hf w. pose proof (rep_run_from ops init [] rep_init_app Hf) as R.
+  destruct (rep_reopen _ _ R) as [H1 [H2 _]]. split; assumption.
+Qed.
+
+(* C02 *)
+Lemma close_valid_gen w orph : Rep (wmem w) (wfile w) (wpend w ++ orph) ->
+  (forall k, In k orph -> nonKG k = true) ->
+  (forall k n, fget k (flat (wfile w)) = Some n -> fst k <> KG -> In k (keys_of (wmem w))) ->
+  Valid (wfile (close_file w)).
+Proof.
+  intros R Hn H.
+  destruct (close_file_rep_file w _ R) as [Hf _]. { intros k Hk; apply in_or_app; left; exact Hk. }
+  pose proof (rep_sweep w KG orph R) as R1. rewrite Hf. exists (wmem w).
+  eapply rep_pend_change; [exact R1 | intros k [] |].
+  intros k n Hg Hin. exfalso.
+  assert (Hk : nonKG k = true).
+  { apply in_app_or in Hin. destruct Hin as [Hin|Hin]; [apply filter_In in Hin; apply Hin | apply Hn; exact Hin]. }
+  apply (rep_pend _ _ _ R1 k Hin). apply (H k n).
+  - unfold sweep_file in Hg. apply del_all_Some in Hg; [apply Hg | exact (rep_flatnd _ _ _ R)].
+  - intros E. unfold nonKG in Hk. rewrite E in Hk. discriminate.
+Qed.
+
+Theorem close_valid_nolinger : forall ops, fresh_run ops init = true ->
+  let w := run ops init in
+  (forall k n, fget k (flat (wfile w)) = Some n -> fst k <> KG -> In k (keys_of (wmem w))) ->
+  Valid (wfile (close_file w)).
+Proof.
+  intros ops Hf w H. pose proof (rep_run_from ops init [] rep_init_app Hf) as R.
+  eapply close_valid_gen; [exact R | | exact H].
+  apply orph_run_nonKG. intros k [].
+Qed.
+
+Theorem close_valid : forall ops, fresh_run ops init = true -> clean_run ops init = true ->
+  let w := run ops init in
+  (forall k, In k (wpend w) -> fst k = KG) ->
+  Valid (wfile (close_file w)).
+Proof.
+  intros ops Hf Hc w Hp. pose proof (rep_run ops Hf Hc) as R. cbv zeta in R. fold w in R.
+  assert (R0 : Rep (wmem w) (wfile w) (wpend w ++ [])) by (rewrite app_nil_r; exact R). clear R. rename R0 into R.
+  destruct (close_file_rep_file w _ R) as [Hfile _]. { intros k Hk; apply in_or_app; left; exact Hk. }
+  pose proof (rep_sweep w KG [] R) as R1. rewrite Hfile. exists (wmem w).
+  eapply rep_pend_change; [exact R1 | intros k [] |].
+  intros k n _ Hin. rewrite app_nil_r in Hin. apply filter_In in Hin. destruct Hin as [Hin Hk].
+  rewrite (Hp k Hin) in Hk. discriminate.
+Qed.
+
+
+(* ======================================================================================================== *)
+(* Full-strength statements that the faithful model refutes, with concrete witnesses                         *)
+(* ======================================================================================================== *)
+
+(* C01 without the freshness side condition *)
+Definition C01_full : Prop :=
+  forall ops, let w := run ops init in tree_equiv (wmem (fst (step w Reopen))) (wmem w).
+
+(* group G1, object O2 under it with data D3, O2 removed through its parent (flat node stays), O2 created again with
+   other attributes: write_entity keeps the stale node, re-opening resurrects the old name / array / child *)
+Definition ops_stale : list op :=
+  [Create KG 1 rootkey 10 0; Create KO 2 (KG, 1%N) 5 6; Create KD 3 (KO, 2%N) 7 8;
+   RemoveParent (KO, 2%N); Create KO 2 (KG, 1%N) 50 60].
+
+Theorem C01_full_refuted : ~ C01_full.
+Proof.
+  intros H. specialize (H ops_stale). cbv zeta in H.
+  destruct (rows_equiv _ _ H ((KO, 2%N), {| aname := 5; adel := true; aarr := 6; apgs := [] |}, [(KD, 3%N)]))
+    as [r [Hr [E1 [E2 _]]]].
+  - vm_compute. right. right. left. reflexivity.
+  - vm_compute in Hr. destruct Hr as [<-|[<-|[<-|[]]]]; vm_compute in E1; try discriminate E1.
+    destruct E2 as [E2 _]. vm_compute in E2. discriminate E2.
+Qed.
+
+Lemma ops_stale_not_fresh : fresh_run ops_stale init = false.
+Proof. vm_compute. reflexivity. Qed.
+
+(* C02 without side conditions *)
+Definition C02_full : Prop := forall ops, Valid (wfile (close_file (run ops init))).
+
+Lemma nonroot_has_parent t x : In x (keys_of t) -> x <> tkey t -> exists r, In r (rows t) /\ In x (rkids r).
+Proof.
+  induction t as [k a l IH] using tree_ind'. rewrite keys_of_eq. simpl. intros [E|Hx] Hne; [congruence|].
+  apply in_flat_map in Hx. destruct Hx as [c [Hc Hx]].
+  destruct (key_dec x (tkey c)) as [->|Hn].
+  - exists (k, a, map tkey l). split; [left; reflexivity | apply in_map; exact Hc].
+  - rewrite Forall_forall in IH. destruct (IH c Hc Hx Hn) as [r [Hr Hk]]. exists r. split; [|exact Hk].
+    right. apply in_flat_map. exists c. split; assumption.
+Qed.
+
+(* a stored node that no stored node links to, other than Root, makes the file invalid *)
+Lemma not_valid_orphan f x : (exists n, fget x (flat f) = Some n) -> x <> rootkey ->
+  (forall k n, In (k, n) (flat f) -> ~ In x (map fst (flinks n))) -> ~ Valid f.
+Proof.
+  intros [n E] Hne Hno [t R].
+  destruct (rep_only _ _ _ R _ _ E) as [Hx|[]].
+  destruct (nonroot_has_parent t x Hx) as [r [Hr Hk]]; [rewrite (rep_root _ _ _ R); exact Hne|].
+  destruct (rep_rows _ _ _ R r Hr) as [n' [Hg [_ [_ [Hkk _]]]]]. apply Hkk in Hk.
+  apply fget_pair_In in Hg. exact (Hno _ _ Hg Hk).
+Qed.
+
+(* an object removed through its parent and never listed: close sweeps groups only *)
+Definition ops_orphan : list op := [Create KO 1 rootkey 1 1; RemoveParent (KO, 1%N)].
+
+Theorem C02_full_refuted : ~ C02_full.
+Proof.
+  intros H. specialize (H ops_orphan). revert H. apply not_valid_orphan with (x := (KO, 1%N)).
+  - vm_compute. eexists. reflexivity.
+  - discriminate.
+  - intros k n Hin. vm_compute in Hin. destruct Hin as [Hin|[Hin|[]]]; inversion Hin; subst; simpl; tauto.
+Qed.
+
+(* the invariant with exactly the pending identifiers, and the close theorem under "only groups are pending", as first
+   stated: refuted by a re-open that forgets a pending object *)
+Definition rep_run_full : Prop :=
+  forall ops, fresh_run ops init = true -> let w := run ops init in Rep (wmem w) (wfile w) (wpend w).
+Definition close_valid_full : Prop :=
+  forall ops, fresh_run ops init = true -> let w := run ops init in
+  (forall k, In k (wpend w) -> fst k = KG) -> Valid (wfile (close_file w)).
+
+Definition ops_forgot : list op := [Create KO 1 rootkey 1 1; RemoveParent (KO, 1%N); Reopen].
+
+Lemma ops_forgot_fresh : fresh_run ops_forgot init = true.
+Proof. vm_compute. reflexivity. Qed.
+
+Theorem rep_run_full_refuted : ~ rep_run_full.
+Proof.
+  intros H. pose proof (H ops_forgot ops_forgot_fresh) as R. cbv zeta in R.
+  assert (E : exists n, fget (KO, 1%N) (flat (wfile (run ops_forgot init))) = Some n) by (vm_compute; eexists; reflexivity).
+  destruct E as [n E]. destruct (rep_only _ _ _ R _ _ E) as [Hx|Hx]; vm_compute in Hx.
+  - destruct Hx as [Hx|[]]. discriminate Hx.
+  - exact Hx.
+Qed.
+
+Theorem close_valid_full_refuted : ~ close_valid_full.
+Proof.
+  intros H. pose proof (H ops_forgot ops_forgot_fresh) as V. cbv zeta in V.
+  assert (Hp : forall k, In k (wpend (run ops_forgot init)) -> fst k = KG) by (intros k Hk; vm_compute in Hk; destruct Hk).
+  specialize (V Hp). revert V. apply not_valid_orphan with (x := (KO, 1%N)).
+  - vm_compute. eexists. reflexivity.
+  - discriminate.
+  - intros k n Hin. vm_compute in Hin. destruct Hin as [Hin|[Hin|[]]]; inversion Hin; subst; simpl; tauto.
+Qed.
+
+(* ---- the one-step invariant as first stated (without [clean_op]) is refuted as well ---- *)
+Definition rep_step_full : Prop :=
+  forall w o, Rep (wmem w) (wfile w) (wpend w) -> fresh_op w o = true ->
+  Rep (wmem (fst (step w o))) (wfile (fst (step w o))) (wpend (fst (step w o))).
+
+Theorem rep_step_full_refuted : ~ rep_step_full.
+Proof.
+  intros H. apply rep_run_full_refuted. intros ops.
+  assert (G : forall w, Rep (wmem w) (wfile w) (wpend w) -> fresh_run ops w = true ->
+              Rep (wmem (run ops w)) (wfile (run ops w)) (wpend (run ops w))).
+  { induction ops as [|o r IH]; intros w R Hf; [exact R|].
+    simpl in Hf. apply andb_true_iff in Hf. destruct Hf as [H1 H2]. rewrite run_cons.
+    apply IH; [apply H; assumption | exact H2]. }
+  intros Hf. apply G; [exact rep_init | exact Hf].
+Qed.
+
+(* ---- C09 at every state reached by a history without stale identifier re-use ---- *)
+Theorem step_frame_run : forall ops o x, fresh_run ops init = true ->
+  let w := run ops init in
+  ~ In x (footprint_rep w o) ->
+  fget x (flat (wfile (fst (step w o)))) = fget x (flat (wfile w)).
+Proof.
+  intros ops o x Hf w Hx. pose proof (rep_run_from ops init [] rep_init_app Hf) as R.
+  eapply step_frame_rep_gen; [exact R | | exact Hx].
+  intros k Hk. apply in_or_app. left. exact Hk.
+Qed.
+
+(* ======================================================================================================== *)
+(* Non-vacuity                                                                                               *)
+(* ======================================================================================================== *)
+(* two groups, an object with two data and two property groups, a copy of that object (own identifier, two data, two
+   groups), rename, move of the object, removal of a data through the workspace (one group loses a member, the other is
+   emptied and deleted), move of a data to the copy (its last group is emptied), a group removed through its parent and
+   swept, a non-deletable object, removal of a property group, a re-open, a removal through the workspace that raises
+   half-way, a complete removal *)
+Definition ops_demo : list op :=
+  [Create KG 1 rootkey 10 0; Create KG 2 rootkey 11 0; Create KO 3 (KG, 1%N) 12 1; Create KD 4 (KO, 3%N) 13 2;
+   Create KD 7 (KO, 3%N) 16 4;
+   PgAdd (KO, 3%N) 100 77 [(KD, 4%N); (KD, 7%N)];
+   PgAdd (KO, 3%N) 101 78 [(KD, 7%N)];
+   Copy (KO, 3%N) (KG, 2%N) [20; 21; 22; 23; 24]%N;
+   SetName (KO, 3%N) 99; Move (KO, 3%N) (KG, 2%N);
+   RemoveWs (KD, 7%N);
+   Move (KD, 4%N) (KO, 20%N);
+   Create KG 5 (KG, 1%N) 14 0; RemoveParent (KG, 5%N); Sweep KG;
+   Create KO 6 (KG, 2%N) 15 3; SetDel (KO, 6%N) false;
+   PgRemove (KO, 20%N) 24;
+   Reopen;
+   RemoveWs (KG, 2%N); RemoveWs (KG, 1%N)].
+
+Lemma ops_demo_ok :
+  fresh_run ops_demo init = true /\ clean_run ops_demo init = true /\
+  map (fun n => snd (step (run (firstn n ops_demo) init) (nth n ops_demo Reopen))) (seq 0 21)
+  = [Done; Done; Done; Done; Done; Done; Done; Done; Done; Done; Done;
+     Done; Done; Done; Done; Done; Done; Done; Done; Raised; Done].
+Proof. vm_compute. repeat split. Qed.
+
+Lemma ops_demo_rep : let w := run ops_demo init in Rep (wmem w) (wfile w) (wpend w).
+Proof. apply rep_run; apply ops_demo_ok. Qed.
+
+(* the data removal of step 10 empties group 101 and shrinks group 100; the copy of step 7 carries both groups *)
+Lemma ops_demo_groups :
+  apgs (tattrs (match find (KO, 20%N) (wmem (run (firstn 8 ops_demo) init)) with Some t => t | None => wmem init end))
+  = [(23%N, 77%N, [(KD, 21%N); (KD, 22%N)]); (24%N, 78%N, [(KD, 22%N)])] /\
+  apgs (tattrs (match find (KO, 3%N) (wmem (run (firstn 11 ops_demo) init)) with Some t => t | None => wmem init end))
+  = [(100%N, 77%N, [(KD, 4%N)])].
+Proof. vm_compute. split; reflexivity. Qed.
+
+(* a pending dead group: the hypothesis of close_valid is met non-trivially *)
+Definition ops_dead_group : list op := [Create KG 1 rootkey 1 0; Create KO 2 rootkey 2 1; RemoveParent (KG, 1%N)].
+
+Lemma ops_dead_group_ok :
+  fresh_run ops_dead_group init = true /\ clean_run ops_dead_group init = true /\
+  wpend (run ops_dead_group init) = [(KG, 1%N)].
+Proof. vm_compute. repeat split. Qed.
